@@ -238,6 +238,21 @@ CLAIMED["C08"] = (
     "Lean 4 proof (column-letter bijection, layout arithmetic) + reference/workbook correspondence",
     "DESIGN.md §5 C07/C08",
 )
+CLAIMED["C13"] = (
+    "Kernel-checked theorems on the placeholder-cloning model: cloning ANY list of layout placeholder keys (type, idx, "
+    "orient, sz) onto ANY slide state whose shape ids are unique yields, in the same order, exactly one new placeholder per "
+    "key carrying that key; every new name differs from every name already on the slide and from each other (the name search "
+    "`base n` for n = id-1, id, ... terminates by pigeonhole and is fresh), ids stay unique; cloning fails exactly on a type "
+    "without a basename entry; the effective geometry is own, else layout, else master, per attribute.  Tied to the code "
+    "by exact comparison of (key sequence, ids, names) for every layout of every corpus deck and for generated layouts "
+    "(all placeholder types, duplicates, look-alike names) over repeated add_slide calls, and by oracles on the real "
+    "output: inherited left/top/width/height vs layout/master until overridden, slide is last, related to its layout, "
+    "other slides byte-identical (C14N), notes slides likewise.",
+    "Trusted: the basename table is read from the live code and passed to the model; shape-id allocation is C06's model; "
+    "layout rewriting in the harness builds inputs only.",
+    "Lean 4 proof (fold invariant, pigeonhole name search) + add_slide correspondence + geometry/untouched-slide oracles",
+    "DESIGN.md §5 C13",
+)
 
 NOT_YET = {}
 
